@@ -122,3 +122,26 @@ Theorem C19_incr : forall st c name iv i old,
     else (st, err (lit "integer overflow")).
 Proof. exact cmd_incr_spec. Qed.
 Print Assumptions C19_incr.
+
+(* ---- the case mapping behind tolower / -nocase (Rust std's str::to_lowercase) ----
+   It is character by character except for capital sigma (U+03A3 = 931), whose image depends on
+   its context.  The rule reaches no further than this: without a sigma the result is the
+   per-character map; with sigmas, every character still contributes exactly its own block, and a
+   sigma's block is one of the two small sigmas, chosen by the closed-form condition. *)
+From Molt Require Import Model.Unicode Proofs.UnicodeFacts.
+
+Theorem C19_lower_no_sigma : forall s,
+  ~ In 931%N s -> to_lowercase s = flat_map lower_char s.
+Proof. exact to_lowercase_no_sigma. Qed.
+Print Assumptions C19_lower_no_sigma.
+
+Theorem C19_lower_blocks : forall s, blocks_ok s (to_lowercase s).
+Proof. exact to_lowercase_blocks. Qed.
+Print Assumptions C19_lower_blocks.
+
+Theorem C19_lower_sigma : forall before r,
+  lower_go before (931%N :: r)
+  = (if ci_then_cased before && negb (ci_then_cased r) then 962%N else 963%N)
+      :: lower_go (931%N :: before) r.
+Proof. exact lower_go_sigma_here. Qed.
+Print Assumptions C19_lower_sigma.
